@@ -27,7 +27,11 @@ RULE = ("one run = 1-3 requests of one process sharing their argument "
         "formula classes, seed= given or not, 0-3 planted total assignments) "
         "or of 'cnfgen randkcnf|randkxor [-p] k n m' with (k,n,m) around the "
         "boundaries (k in 0..n+1, m in {0,1,mid,max-1,max,max+1,max+5}), on a "
-        "fair or adversarial PRNG. Non-trivial: the call succeeded with "
+        "fair or adversarial PRNG; seeds of every hashable kind (int, str, "
+        "bytes, float, tuple, frozenset); planted assignments inside a "
+        "list, tuple, iterator or generator; 2% of the library runs ask for "
+        "n >= 2^63 - 1 variables (shape checked only); the command line also "
+        "with k = 0 and n = 0. Non-trivial: the call succeeded with "
         "m >= 2 or was correctly refused at the boundary; distinct = "
         "distinct (arguments, PRNG seed, adversary).")
 ASSUMPTIONS = ["n <= 7 (reference enumerates all clauses / parities and, for "
